@@ -15,7 +15,7 @@ CASE_TYPE = "C07.case"
 CHECK_FN = "C07.check_case"
 SHARD = 80
 RULE = ("a case is (composite type, header flag, byte string): random bytes, every prefix of valid representations, single-bit flips, "
-        "valid representation + junk, + zeros, bytes overwritten with 0xFF / capacity+1 / variant count, length prefix / tag / header "
+        "valid representation + junk, + zeros, bytes overwritten with 0xFF / capacity+1 / variant count, length prefix / tag / header (unions with interleaved constants: tags from #variants to #attributes) "
         "forced just above the limit, invalid UTF-8; observed: decoded value (type-directed positional form) or coarse exception class; "
         "implementation-alone predicates: only SerDesError/ValueError, decode->encode->decode fixed point, decoding the same bytes again after mutating the first result in place gives the same value, appending zero bytes does not "
         "change a successful result, junk after a valid representation is ignored; non-trivial = the byte string is non-empty and the type "
@@ -99,6 +99,14 @@ def targeted():
         t = Un([["u", 8, "s"]] * nv)
         for tag in (nv - 1, nv, 255):
             out.append(mk_case(t, False, ["raw", [tag, 9]]))
+    # unions that also declare constants (attributes, never variants): tags from the number of variants up to the number of
+    # attributes must be rejected like any other out-of-range tag
+    for nv, consts in ((2, [[0, "u8"], [1, "u16"]]), (2, [[2, "u8"]]), (3, [[0, "bool"], [1, "u8"], [3, "u16"], [3, "u8"]]), (4, [[2, "u16"]])):
+        t = Un([["u", 8, "s"], ["u", 16, "s"], ["bool"], ["i", 8]][:nv]) + [consts]
+        for tag in sorted({nv - 1, nv, nv + 1, nv + len(consts) - 1, nv + len(consts), nv + len(consts) + 1}):
+            out.append(mk_case(t, False, ["raw", [tag, 1, 2]]))
+        out.append(mk_case(St([["u", 8, "s"], t, ["u", 8, "s"]]), False, ["raw", [9, nv, 1, 2, 3]]))
+        out.append(mk_case(De(t, 8), True, ["raw", [3, 0, 0, 0, nv + len(consts) - 1, 1, 2]]))
     big = Un([["bool"]] * 256 + [["u", 8, "s"]])
     for tag in (255, 256, 257, 65535):
         out.append(mk_case(big, False, ["raw", list(tag.to_bytes(2, "little")) + [1]]))
@@ -158,6 +166,13 @@ def gen_family(rng, tier, out):
     for _ in range(2):
         out.append(mk_case(t, hdr, ["setbyte", rng.getrandbits(16), rng.choice([0xFF, 0x80, 1, 2, 3, 4, 5, 6, 8, 9, 16, 17, 24, 25, rng.randrange(256)])], v))
     out.append(mk_case(t, hdr, ["prefixjunk", rng.randrange(0, maxb + 1), [rng.randrange(256) for _ in range(rng.randrange(1, 6))]], v))
+    # hostile tags around the number of variants / attributes of every union the top level gives direct access to
+    top = t[1] if (t[0] == "delim" and not hdr) else t
+    if top[0] == "union":
+        nv, nc = len(top[2]), len(S.consts_of(top))
+        for tag in sorted({nv, nv + 1, nv + nc - 1, nv + nc} - {nv - 1}):
+            if 0 <= tag < 256 and nv < 256:
+                out.append(mk_case(t, hdr, ["raw", [tag] + [rng.randrange(256) for _ in range(rng.randrange(0, 6))]]))
     for _ in range(2):
         n = rng.choice([0, 1, 2, 3, rng.randrange(0, 2 * maxb + 2)])
         kind = rng.random()
@@ -285,6 +300,8 @@ def describe(case, obs):
     keys.append("len:" + ("0" if n == 0 else "1-4" if n <= 4 else "5-16" if n <= 16 else "17-64" if n <= 64 else ">64"))
     for k in sorted({x[0] for x in S.walk_types(t) if x[0] in ("var", "fix", "union", "delim", "utf8", "byte", "f", "void")}):
         keys.append("has:" + k)
+    if any(S.consts_of(x) for x in S.walk_types(t) if x[0] in ("struct", "union")):
+        keys.append("has:constants")
     if obs.get("pred_fail"):
         keys.append("pred-fail")
     return keys
